@@ -13,6 +13,7 @@ from spec.exprval import mk_expr, as_expr, real, ASSUMED_SYMPY
 from spec.series import (AtomSort, RulesSort, NO_RULES, VEV, atom_nc, mk_nc, nc_vev,
                          new_stamp, stamps_of, model_wicks, model_simplify)
 from spec import gsmodel as G
+from spec import isrmodel as _M   # noqa: F401  (registers NormFactor & helpers)
 from spec.idx import IdxSort
 
 ASSUMPTIONS = ASSUMED_SYMPY + [
@@ -129,18 +130,7 @@ class Psi(Contract):
 PSI_PREFIX = z3.Function("psi_prefix", z3.IntSort(), z3.IntSort(), z3.BoolSort(),
                          z3.ArraySort(z3.IntSort(), IdxSort),
                          z3.ArraySort(z3.IntSort(), IdxSort), z3.IntSort(), z3.RealSort())
-WORDVAL = z3.Function("WORDVAL", AtomSort, z3.RealSort())
-
-
-def nc_linear_value(nc):
-    """value of a formal sum of single-atom words under an arbitrary linear
-    functional WORDVAL (equality for all functionals = equality of the sums)"""
-    t = z3.RealVal(0)
-    for c, w in nc.f["terms"]:
-        if len(w) != 1:
-            raise Unsupported("psi term with more than one operator string")
-        t = t + c * WORDVAL(w[0])
-    return t
+from spec.series import WORDVAL, nc_linear_value, ncv_value, ncv_arith
 
 
 def psi_term_spec(n, bkcode, singles, virt, occ, k):
@@ -197,25 +187,6 @@ class PsiLoop(LoopContract):
                  ncv_value(frame["psi"]) == PSI_PREFIX(n, bk, singles, va, oa, kk))]
 
 
-def ncv_value(v):
-    if isinstance(v, Struct) and v.cls == "NCV":
-        return v.f["val"]
-    if isinstance(v, Struct) and v.cls == "NC":
-        return nc_linear_value(v)
-    if isinstance(v, int) and v == 0:
-        return z3.RealVal(0)
-    return as_expr(v).f["val"]
-
-
-def ncv_arith(ip, opn, a, b):
-    if opn in ("Add", "Sub"):
-        va, vb = ncv_value(a), ncv_value(b)
-        st = stamps_of(a) | stamps_of(b)
-        return Struct("NCV", val=va + vb if opn == "Add" else va - vb, stamps=st)
-    raise Unsupported("operator on an accumulated operator sum")
-
-
-C.STRUCT_ARITH["NCV"] = ncv_arith
 Psi.loops = {0: PsiLoop()}
 
 
@@ -252,15 +223,6 @@ def _psi_loop_inv_capture(self, vc, frame, k, seq):
 
 
 PsiLoop.invariant = _psi_loop_inv_capture
-
-
-@register
-class UncachedLemma(Contract):
-    """syntactic frame condition: psi / overlap / norm_factor are not wrapped
-    by a caching decorator (each call must produce fresh contracted indices)"""
-    key = GS + ".norm_factor"
-    props = []
-    assumed = True
 
 
 @lemma("C02", "uncached")
